@@ -212,6 +212,12 @@ func c18Replay(args []string) error {
 						cs["observed"] = g
 						report("adts/roundtrip", "decoded ADTS header differs from the encoded one")
 					}
+					// the sampling frequency the decoded header states (ISO/IEC 14496-3 table 1.18)
+					isoFreq := []int{96000, 88200, 64000, 48000, 44100, 32000, 24000, 22050, 16000, 12000, 11025, 8000, 7350}
+					if wh.Sfi < len(isoFreq) && int(got.Frequency()) != isoFreq[wh.Sfi] {
+						cs["observed_frequency"] = got.Frequency()
+						report(fmt.Sprintf("adts/frequency/index%d", wh.Sfi), fmt.Sprintf("ADTSHeader.Frequency() = %d for sampling_frequency_index %d (%d Hz)", got.Frequency(), wh.Sfi, isoFreq[wh.Sfi]))
+					}
 				}
 			}
 			var sample interface{}
